@@ -38,6 +38,7 @@ def handlers : List (String × (Json → Except String Json)) := [
   ("C07.liouvillian", Qv.Drv.C07.liouvJ),
   ("C08.shuffle", Qv.Drv.C08.shuffleJ),
   ("C13.read_seed", Qv.Drv.C13.readSeedJ),
+  ("C13.collect", Qv.Drv.C13.collectJ),
   ("C06.call", Qv.Drv.C06.callJ),
   ("C06.inter", Qv.Drv.C06.interJ),
   ("C06.func_args", Qv.Drv.C06.funcArgsJ),
